@@ -914,7 +914,10 @@ def oracle_history(files, cmds, obs, exited_at, snaps, fault=None, final=None, n
                 if refused:
                     return (k, '%r was refused although the current buffer %s is in its saved state' % (ctext, prev_cur), 'allowed', 'buffer modified')
         # (under the shim: a wq / x whose own write part failed stays where it is because of that failure, not because of the scan)
-        if kind == 'q' and ctext != 'xa' and any(dirty_before.values()) and not any(v != 'saved' for v in sv_here.values()):
+        # (the same when the write part was refused by the mtime guards -- "write failed: file changed" after an earlier FAILED save has stamped the
+        # file and the clock second has moved on: no open() call appears in the shim log, ec_quit returns 1 before its scan)
+        wq_failed = ctext.split()[0] in ('wq', 'x') and b'write failed' in o['cmdout']
+        if kind == 'q' and ctext != 'xa' and any(dirty_before.values()) and not any(v != 'saved' for v in sv_here.values()) and not wq_failed:
             starred = {p for (_, _, p, f) in obs[k - 1]['listing'] if f == '*'}
             if not dirty_before.get(cur, False) and cur not in starred:      # a buffer reported modified while equal to its file (e.g. :e! then u) may be the one
                 return (k, ':q was refused but did not switch to a buffer that differs from its file or is reported modified', 'a modified buffer current', cur)
